@@ -30,6 +30,13 @@ def base_scenario(name, seed, tier="quick"):
     mod = module(name)
     sc = mod.generate(R.h64(seed, "donor", name) >> 1, "quick")
     prog = [{k: o[k] for k in ("bar", "phase", "op", "m", "a") if k in o} for o in sc["program"]]
+    # what only the donor's own check is about stays with the donor: a strategy scribbling over the price row it was handed
+    # (C13's what-if; the borrowers compare snapshots and price columns themselves); operations the donor's script performs
+    # before run() are performed at the head of initialize here (the borrowers know five phases)
+    prog = [o for o in prog if o["op"] != "strat.scribble_snapshot_prices"]
+    for o in prog:
+        if o.get("phase") == "pre_run":
+            o["bar"], o["phase"] = -1, "initialize"
     return {"world": sc["world"], "program": prog, "donor_faults": [f.get("kind") for f in sc.get("faults", [])]}
 
 
